@@ -50,14 +50,24 @@ class EvalCfg:
 class Pose:
     """ego pose: rendering of ego-relative coordinates into a frame"""
 
-    def __init__(self, frame, ego_q="id", tag="ego"):
+    def __init__(self, frame, ego_q="id", tag="ego", reuse_buffer=False):
         self.frame_name = frame
         self.frame = FrameID.MAP if frame == "map" else FrameID.BASE_LINK
         self.q = EGO_Q[ego_q]
         self.M = models.q_to_matrix(tuple(Fraction(v) for v in self.q))
         # the dataset always ships the ego pose with a frame, whatever frame the objects are in
         self.t = (real(f"{tag}_tx", -500, 500), real(f"{tag}_ty", -500, 500), 0.0)
-        self.transforms = [HomogeneousMatrix(self.t, build.mkrot(self.q), FrameID.BASE_LINK, FrameID.MAP)]
+        if reuse_buffer:
+            # the ego translation is handed over in a caller-owned array which the caller then advances in place
+            # (a loader integrating the ego position in one buffer); the transform must keep the pose it was given
+            import numpy as np
+
+            from ..symnp import symarray
+            buf = symarray(list(self.t)) if symx.is_symbolic() else np.array([float(v) for v in self.t])
+            self.transforms = [HomogeneousMatrix(buf, build.mkrot(self.q), FrameID.BASE_LINK, FrameID.MAP)]
+            buf += 7.5
+        else:
+            self.transforms = [HomogeneousMatrix(self.t, build.mkrot(self.q), FrameID.BASE_LINK, FrameID.MAP)]
 
     def render(self, ex, ey, ez=0.0):
         if self.frame == FrameID.BASE_LINK:
